@@ -75,14 +75,16 @@ Proof. exact C01KindsAll.clean_kind_idem. Qed.
 Print Assumptions clean_encode_idem.
 
 (* roundtrip_equal, constructor level, partial: for every class set `ids` closed under nesting whose
-   tables pass class_ok (closed_ok: distinct slot names, proved slot kinds, defaults of the expected
-   shape, no reserved slot names, a class __init__ that leaves the keyword arguments alone), every
+   tables pass class_okw (closed_okw: distinct slot names, proved slot kinds, defaults of the expected
+   shape, no reserved slot names, and a class __init__ that leaves the keyword arguments alone or is the
+   MarkingDefinition one -- `definition` wrapped into the registered marking class, in 2.0 with the
+   precision of `created` switched per instance: md_ok), every
    fuel and every plain input -- a 2.1 observable with its id given, as in serialized text --
    constructing from the object's own encoding returns the same object: same class, same members in
    the same order, same defaulted list, same custom flag. *)
 Theorem roundtrip_equal_partial :
   forall vr ev w pattern_ok selectors_ok, vr_year_pad vr = true ->
-  forall ids, closed_ok vr w ids = true ->
+  forall ids, closed_okw vr w ids = true ->
   forall fuel kid allow interop kw vrefs o,
     mem_ustr kid ids = true -> plain_dict kw = true -> id_given w kid kw = true ->
     run vr ev w pattern_ok selectors_ok fuel (RConstruct kid allow interop kw vrefs) = Ok o ->
@@ -94,7 +96,7 @@ Print Assumptions roundtrip_equal_partial.
    ordered members under every option set (hence byte-identical text under the abstract injective render) *)
 Theorem reserialize_identical_partial :
   forall vr ev w pattern_ok selectors_ok, vr_year_pad vr = true ->
-  forall ids, closed_ok vr w ids = true ->
+  forall ids, closed_okw vr w ids = true ->
   forall fuel kid allow interop kw vrefs o o' (opts : sopts),
     mem_ustr kid ids = true -> plain_dict kw = true -> id_given w kid kw = true ->
     run vr ev w pattern_ok selectors_ok fuel (RConstruct kid allow interop kw vrefs) = Ok o ->
@@ -123,14 +125,17 @@ Theorem roundtrip_equal_parse_partial :
 Proof. exact C01Parse.parse_roundtrip. Qed.
 Print Assumptions roundtrip_equal_parse_partial.
 
-(* the generated tables of /repo: which classes the two theorems above cover (recomputed by the kernel
-   on every run; 110 of 123 at the pinned tables -- not: Bundle, ObservedData (member parsing),
-   Relationship, Sighting, StatementMarking, MarkingDefinition, 2.1 Indicator (class __init__ rewrites)) *)
-Theorem lib_classes_covered : closed_ok variant_repaired lib lib_proved_ids = true.
-Proof. exact C01LibInstance.lib_proved_closed. Qed.
+(* the generated tables of /repo: which classes the constructor-level theorems above cover (recomputed by
+   the kernel on every run; 118 of 123 at the current tables -- not: Bundle, ObservedData (member parsing),
+   2.1 Indicator (pattern_version rewrite)); lib_proved_ids (116: without the two MarkingDefinition classes)
+   is the set of the parse-level theorem and of the C04 theorems *)
+Theorem lib_classes_covered :
+  closed_okw variant_repaired lib lib_proved_idsw = true /\ closed_ok variant_repaired lib lib_proved_ids = true /\
+  forallb (fun k => mem_ustr k lib_proved_idsw) lib_proved_ids = true.
+Proof. exact (conj C01LibInstance.lib_proved_closedw (conj C01LibInstance.lib_proved_closed C01LibInstance.lib_proved_sub)). Qed.
 Print Assumptions lib_classes_covered.
 
-Example lib_coverage_count : fst lib_coverage = List.length lib_proved_ids /\ snd lib_coverage = List.length (wclasses lib).
+Example lib_coverage_count : fst lib_coverage = List.length lib_proved_idsw /\ snd lib_coverage = List.length (wclasses lib).
 Proof. split; vm_compute; reflexivity. Qed.
 
 (* ... and which of them are parse entry points covered by roundtrip_equal_parse_partial (81 at the pinned tables) *)
